@@ -11,8 +11,8 @@ const (
 
 var registry = []*HarnessSpec{
 	{Prop: "C14", Name: "zzH14a", Pkg: pkgPlugin, Tier: "quick", Params: map[string]int{"n": 3, "n@thorough": 4}, Bounds: "address list of n=3 (thorough 4) fully symbolic entries (either family, any length, six flags)"},
-	{Prop: "C15", Name: "zzH15", Pkg: pkgPlugin, Tier: "quick", Params: map[string]int{"n": 3, "n@thorough": 4}, Bounds: "route list of n=3 (thorough 4) symbolic masked prefixes of either family, any length"},
-	{Prop: "C16", Name: "zzH16", Pkg: pkgPlugin, Tier: "quick", Params: map[string]int{"mono": 1}, Bounds: "epoch and three non-decreasing monotonic clock readings (what time.Now returns; possibly before the epoch), lifetimes any ns value the parser accepts below 2^32 s"},
+	{Prop: "C15", Name: "zzH15", Pkg: pkgPlugin, Tier: "quick", Params: map[string]int{"n": 2, "n@thorough": 3}, Bounds: "route list of n=2 (thorough 3) symbolic masked prefixes of either family, any length"},
+	{Prop: "C16", Name: "zzH16", Pkg: pkgPlugin, Tier: "quick", MonoTime: true, Params: map[string]int{"mono": 1}, Bounds: "epoch and three non-decreasing monotonic clock readings (what time.Now returns; possibly before the epoch), lifetimes any ns value the parser accepts below 2^32 s"},
 	{Prop: "C16", Name: "zzH16wall", Pkg: pkgPlugin, Tier: "thorough", Params: map[string]int{"mono": 0}, Bounds: "same with wall-clock-only readings (years 1970..2242)"},
 	{Prop: "C01", Name: "zzH01b", Pkg: pkgPlugin, Tier: "quick", Bounds: "max_interval any ns value in [4s,1800s]"},
 	{Prop: "C13", Name: "zzH13", Pkg: pkgPlugin, Tier: "quick", Params: map[string]int{"n": 3, "n@thorough": 4}, Bounds: "address list of n=2 (thorough 3) fully symbolic entries: either family, any length, all six flags; stanza flags/lifetimes symbolic; listing failure"},
